@@ -110,6 +110,12 @@ impl AckDeadline {
     }
 }
 
+/// The process-wide origin of the deadline rounding grid.
+#[cfg(deltio_verif)]
+pub fn verif_epoch() -> Instant {
+    *EPOCH
+}
+
 impl From<AckDeadline> for Instant {
     fn from(value: AckDeadline) -> Self {
         value.time()
